@@ -23,7 +23,8 @@ TECHNIQUE = "bounded symbolic execution of the real Python source (symx) with z3
 EXPLANATION = "vector literal -> assemble -> next-level class on the symbolic product; the relation between the hand-written literals is decided for all inserts in the bound"
 ASSUMPTIONS = [
     "the vector is an instance of its class's structure (unique occurrence, canonical position; rotations: C02)",
-    "the product carries exactly two recognition sites of the next level's cutter (both strands counted)",
+    "the product carries exactly two next-level recognition sites (both strands counted); the site word is read from the "
+    "vector's structure literal (YTK: from the next-level class's cutter)",
     "inserts >= 2 nt; overhangs chain by construction; cohesive ends pairwise distinct and not reverse-complementary",
 ]
 
@@ -98,7 +99,16 @@ def ob_level(ctx):
     ctx.observe("product", pd)
     from .rblock import _letters_at
 
-    occ = [_letters_at(pd, N, p, gN.site) for p in range(N)] + [_letters_at(pd, N, p, gN.rsite) for p in range(N)]
+    # "the two next-level sites the design provides" are the ones written in the vector's structure literal (its
+    # leading run of fixed nucleotides); only where the literal has none (YTK: the sites come with the product) is the
+    # next-level class's own cutter used
+    import re as _re
+    import Bio.Seq as _BS
+
+    lead = _re.match(r"[ACGT]{4,}", V.structure())
+    dsite = lead.group(0) if lead else gN.site
+    drsite = str(_BS.Seq(dsite).reverse_complement())
+    occ = [_letters_at(pd, N, p, dsite) for p in range(N)] + [_letters_at(pd, N, p, drsite) for p in range(N)]
     ctx.assume(Eq(Count(occ), 2))
     if P.get("rotate") == "product":
         # the same product plasmid, renumbered from another origin before it is handed to the next level
